@@ -62,6 +62,14 @@ claimed["C07"] = dict(
     technique="deterministic simulation: stored-data fault injection between encode and read, seeded call histories on one Context/Layouter compared with fresh-context reference runs, deterministic step budget",
 )
 
+claimed["C02"] = dict(
+    level="exploration",
+    text="Storage-fault injection under the decoders: each of 19 decoders is fed artefacts the library itself wrote after 1..3 faults of the stored-data catalogue (plus undamaged and all-random controls), through simulated readers with short reads; oracles are no panic, a deterministic step budget, an allocation bound linear in the input, and a panic-free accessor battery (the accessors the statement lists, incl. re-encoding) on whatever is accepted. This reaches 'all byte strings' through the fault neighbourhood of valid files - the part of the space a deployment meets - and is a sample, not the space.",
+    design="3 C02",
+    note="Trusted: fault catalogue, step counter inserted by the rewriter, runtime.MemStats.TotalAlloc as allocation meter. Not covered: adversarial inputs far from any valid artefact other than short random strings; inputs of several MB (largest artefact ~150 KiB).",
+    technique="deterministic simulation: stored-data fault injection (crash images, bit rot, torn and misdirected writes) under simulated short-reading readers, with deterministic step and allocation budgets",
+)
+
 pending = {k: PENDING_REASON for k in ["C01", "C02", "C03", "C07", "C15", "C16", "C18", "C19", "C20"] if k not in claimed}
 
 not_applicable = {
